@@ -531,7 +531,6 @@ class Parser:
             else:
                 expr3 = None
             expr1 = nodes.CondExpr(expr2, expr1, expr3, lineno=lineno)
-            lineno = self.stream.current.lineno
         return expr1
 
     def parse_or(self) -> nodes.Expr:
@@ -540,7 +539,6 @@ class Parser:
         while self.stream.skip_if("name:or"):
             right = self.parse_and()
             left = nodes.Or(left, right, lineno=lineno)
-            lineno = self.stream.current.lineno
         return left
 
     def parse_and(self) -> nodes.Expr:
@@ -549,7 +547,6 @@ class Parser:
         while self.stream.skip_if("name:and"):
             right = self.parse_not()
             left = nodes.And(left, right, lineno=lineno)
-            lineno = self.stream.current.lineno
         return left
 
     def parse_not(self) -> nodes.Expr:
@@ -588,7 +585,6 @@ class Parser:
             next(self.stream)
             right = self.parse_concat()
             left = cls(left, right, lineno=lineno)
-            lineno = self.stream.current.lineno
         return left
 
     def parse_concat(self) -> nodes.Expr:
@@ -609,7 +605,6 @@ class Parser:
             next(self.stream)
             right = self.parse_pow()
             left = cls(left, right, lineno=lineno)
-            lineno = self.stream.current.lineno
         return left
 
     def parse_pow(self) -> nodes.Expr:
@@ -619,7 +614,6 @@ class Parser:
             next(self.stream)
             right = self.parse_unary()
             left = nodes.Pow(left, right, lineno=lineno)
-            lineno = self.stream.current.lineno
         return left
 
     def parse_unary(self, with_filter: bool = True) -> nodes.Expr:
@@ -733,7 +727,6 @@ class Parser:
                 is_tuple = True
             else:
                 break
-            lineno = self.stream.current.lineno
 
         if not is_tuple:
             if args:
